@@ -1,27 +1,58 @@
 import RsMatterVerif.Lemmas.Transport
 import RsMatterVerif.Lemmas.Dedup
 import RsMatterVerif.Lemmas.TwoNode
+import RsMatterVerif.Lemmas.TwoNodeBi
 import RsMatterVerif.Props.C04
 /-!
 # C09 — reliable messaging delivers each message at most once and reports the truth
 
-Theorems over `Model/Transport.lean` (+ `Model/Dedup.lean` for the receive window):
-* `at_most_once`: on a secure session every counter is handed to the exchange layer at most once,
-  for every sequence of received headers (delayed, duplicated, reordered);
-* `gives_up_after_budget`, `giveup_is_timeout_not_success`: exactly `budget` retransmissions succeed,
-  the next attempt answers `TxTimeout`, leaves nothing pending, and `pre_send` never answers success
-  for it;
-* `stops_only_by_matching_ack`, `one_ack_suffices`: the pending retransmission disappears on receive
-  only through an acknowledgement of exactly its counter, and one such acknowledgement is enough;
-* `backoff_monotone_attempt`, `backoff_monotone_jitter`, `backoff_lower_bound`,
-  `backoff_actual_ge_spec`: the delay ladder is monotone and never below the protocol's lower bound
-  `base · 1.1 · 1.6^max(0, n−1)` — up to the stated rounding of the integer ladder, and without any
-  allowance for the jitter value the sender loop really uses when `base ≥ 200 ms`;
-* `reliable_message_gets_acked`: an accepted message that requested an acknowledgement leaves an
-  acknowledgement pending, and the next message sent on the exchange carries it.
-System-level clauses (in-order delivery across the two nodes, success ⇒ the peer's stack accepted
-the counter, duplicate ⇒ fresh standalone ack by `handle_rx_packet`) are not theorems here; see
-`docs/C09.md`.
+## One node: `Model/Transport.lean` (+ `Model/Dedup.lean` for the receive window)
+* `at_most_once` (SECURE sessions), `at_most_once_unsecured` (unsecured sessions, for header sequences
+  in which no copy arrives more than 16 counters behind the newest accepted one: `timelyRx`),
+  `at_most_once_timely` (both): every counter is handed to the exchange layer at most once, for every
+  sequence of received headers; `unsecured_not_at_most_once`: why the unsecured statement needs its
+  hypothesis (the restart rule of the unsecured window); `at_most_once_with_own_traffic`: the same for
+  every history in which the node's own sends (piggy-backed acknowledgements, retransmissions, give-ups),
+  exchange opens / drops and received messages with matching / stale / no acknowledgement interleave;
+  `stale_ack_drops_fresh_message` (observation: the mismatch rule loses a fresh message);
+* give-up, whole histories: `gives_up_on_every_schedule` (every interleaving of back-off expiries
+  and received messages none of which acknowledges the pending counter: exactly `budget − count`
+  further transmissions, then `TxTimeout`, nothing pending afterwards),
+  `gives_up_after_budget_on_every_schedule` (from the first transmission: `1 + budget`
+  transmissions), `stops_only_by_ack_or_timeout`, `one_ack_suffices_on_every_schedule`;
+  one fixed history / one step: `gives_up_after_budget`, `giveup_is_timeout_not_success`,
+  `stops_only_by_matching_ack`, `one_ack_suffices`, `reliable_message_gets_acked`;
+* back-off: `specBackoff` is the Matter specification's formula over the rationals with the
+  specification's literal constants; `code_constants_are_the_spec_constants`;
+  `backoff_within_spec_range` (base ≥ 200 ms, attempts ≤ 5, jitter byte 100..255: the code's delay lies
+  between the specification's value for `random = 0` and for `random = 1`), `backoff_le_spec_max`
+  (upper half, every base / jitter); refinement part (integer ladder against the real-valued one):
+  `backoff_monotone_attempt`, `backoff_monotone_jitter`, `backoff_lower_bound` (rounding allowance),
+  `backoff_actual_ge_spec`.
+
+## Two nodes and an adversarial network: `Model/TwoNode.lean`, `Lemmas/TwoNode.lean`
+For EVERY schedule of the model (induction over the schedule, invariant `TwoNode.Good`):
+`twoNode_in_order_at_most_once` (+ `_secure`), `twoNode_success_only_if_accepted`,
+`twoNode_acks_only_for_accepted`, `twoNode_ack_through_succeeds`, `twoNode_duplicate_acked_again`
+(+ `_secure`), `twoNode_retx_xor_giveup` (the sender always has exactly one enabled move of its own:
+retransmit below the budget, give up with `TxTimeout` at the budget), `twoNode_one_tx_one_ack_suffice`
+(existential, secure sessions), `unsecured_late_copy_is_shown_again` (why the unsecured clauses carry
+`late = false`), `accepted_trace_is_a_run` (soundness of the trace monitor).
+Restrictions of that model, all needed or stated: ONE exchange, data flows A → B only and
+acknowledgements B → A are stand-alone (lifted for the clauses below by `Model/TwoNodeBi.lean`); the
+sending application stops for good at the first failed call
+(`order_breaks_if_sender_continues_after_giveup` shows that "in sending order" fails otherwise);
+the receiving application's receive is atomic with its stack's; no forged or corrupted datagrams.
+No fairness is assumed and no liveness is proved: "no hang" is `twoNode_retx_xor_giveup` (the sender
+itself is never blocked) plus the harness's hang detection, not a termination theorem.
+
+## Two nodes, BOTH directions, piggy-backed acknowledgements: `Model/TwoNodeBi.lean`, `Lemmas/TwoNodeBi.lean`
+Secure session, one exchange, both applications send reliably (stop-and-wait each), acknowledgements
+piggy-backed by `ReliableMessage::pre_send`, acknowledgement mismatch ⇒ `Duplicate`, every schedule
+(invariant `TwoNodeBi.Dir` for both directions): `biNode_in_order_at_most_once`,
+`biNode_success_only_if_settled`, `biNode_acks_only_for_settled`; `biNode_success_without_application`
+(with crossing traffic a call can succeed for a message the peer's application never sees).
+This model is not replayed against the running system (the harness's flows are one-directional).
 -/
 namespace C09
 open Transport
@@ -85,22 +116,40 @@ theorem inv_unsynced : C04.Inv Dedup.RxState.unsynced [] := by
   · intro a h; simp at h
   · intro h; simp [Dedup.RxState.unsynced] at h
 
+/-- every header of the sequence arrives *timely*: on a secure session always; on an unsecured one
+its counter is not more than `Dedup.L = 16` behind the newest counter accepted so far
+(`TwoNode.timelyFor`) at the moment it arrives — the one-node form of the two-node model's
+`late = false` -/
+def timelyRx : Sess → List (RxHdr × Nat) → Prop
+  | _, [] => True
+  | s, (h, now) :: rest =>
+    (s.mode.enc = true ∨ TwoNode.timelyFor s.rx h.ctr = true) ∧ timelyRx (s.postRecv h now).1 rest
+
+theorem timelyRx_secure (hs : List (RxHdr × Nat)) : ∀ (s : Sess), s.mode.enc = true → timelyRx s hs := by
+  induction hs with
+  | nil => intro s _; trivial
+  | cons x rest ih =>
+    intro s henc
+    obtain ⟨h, now⟩ := x
+    exact ⟨Or.inl henc, ih _ (by rw [(postRecv_rx_mode s h now).2.1]; exact henc)⟩
+
 theorem runRx_facts (hs : List (RxHdr × Nat)) : ∀ (s : Sess) (acc del : List Nat),
-    s.mode.enc = true → C04.Inv s.rx acc → acc.Nodup → del.Sublist acc →
+    timelyRx s hs → C04.Inv s.rx acc → acc.Nodup → del.Sublist acc →
     (runRx s acc del hs).2.1.Nodup ∧ (runRx s acc del hs).2.2.Sublist (runRx s acc del hs).2.1 := by
   induction hs with
   | nil => intro s acc del _ _ hn hsub; exact ⟨hn, hsub⟩
   | cons x rest ih =>
-    intro s acc del henc hinv hn hsub
+    intro s acc del htim hinv hn hsub
     obtain ⟨h, now⟩ := x
     simp only [runRx]
     have hpr := postRecv_rx_mode s h now
     have hplain : Dedup.postRecv s.rx h.ctr s.mode.enc false = Dedup.postRecvPlain s.rx h.ctr true := by
-      simp [Dedup.postRecv, henc]
+      have := TwoNode.window_timely s.rx h.ctr s.mode.enc htim.1
+      simpa [Dedup.postRecv, TwoNode.window] using this
     have href := C04.step_refines s.rx acc h.ctr hinv
     rw [← hplain] at href
     apply ih
-    · rw [hpr.2.1]; exact henc
+    · exact htim.2
     · rw [hpr.1]; exact href.2
     · cases hd : (Dedup.postRecv s.rx h.ctr s.mode.enc false).2 with
       | false => simpa using hn
@@ -123,13 +172,29 @@ theorem runRx_facts (hs : List (RxHdr × Nat)) : ∀ (s : Sess) (acc del : List 
         simp only [this, ↓reduceIte]
         exact List.Sublist.cons_cons _ hsub
 
-/-- **At most once**: on a fresh secure session, whatever sequence of headers arrives (any loss,
-duplication, delay, reordering, any exchange ids / flags / acknowledgements), no counter reaches the
+/-- **At most once, both session kinds**: on a session with a fresh receive window, whatever
+sequence of headers arrives timely (`timelyRx`: no condition on a secure session; on an unsecured
+one no copy more than 16 counters behind the newest accepted one), no counter reaches the
 exchange layer twice. -/
-theorem at_most_once (s : Sess) (hs : List (RxHdr × Nat)) (henc : s.mode.enc = true)
+theorem at_most_once_timely (s : Sess) (hs : List (RxHdr × Nat)) (htim : timelyRx s hs)
     (hfresh : s.rx = Dedup.RxState.unsynced) : (runRx s [] [] hs).2.2.Nodup := by
-  have h := runRx_facts hs s [] [] henc (by rw [hfresh]; exact inv_unsynced) List.nodup_nil (List.Sublist.refl _)
+  have h := runRx_facts hs s [] [] htim (by rw [hfresh]; exact inv_unsynced) List.nodup_nil (List.Sublist.refl _)
   exact List.Nodup.sublist h.2 h.1
+
+/-- **At most once, SECURE sessions** (`mode.enc = true`: PASE / CASE): on a fresh secure session,
+whatever sequence of headers arrives (any loss, duplication, delay, reordering, any exchange ids /
+flags / acknowledgements), no counter reaches the exchange layer twice. For unsecured sessions see
+`at_most_once_unsecured` (needs timeliness) and `unsecured_not_at_most_once` (why). -/
+theorem at_most_once (s : Sess) (hs : List (RxHdr × Nat)) (henc : s.mode.enc = true)
+    (hfresh : s.rx = Dedup.RxState.unsynced) : (runRx s [] [] hs).2.2.Nodup :=
+  at_most_once_timely s hs (timelyRx_secure hs s henc) hfresh
+
+/-- **At most once, UNSECURED sessions**: the same for `mode = plain`, for every header sequence in
+which no header arrives more than 16 counters behind the newest counter the window has accepted
+(the hypothesis the two-node model records as `late = false`). -/
+theorem at_most_once_unsecured (s : Sess) (hs : List (RxHdr × Nat)) (_hplain : s.mode = .plain)
+    (htim : timelyRx s hs) (hfresh : s.rx = Dedup.RxState.unsynced) : (runRx s [] [] hs).2.2.Nodup :=
+  at_most_once_timely s hs htim hfresh
 
 /-- non-vacuity: duplicates and a reordered first-timer — 5 accepted, 5 again rejected, 7 accepted,
 6 (overtaken, first time) accepted, 6 again rejected. -/
@@ -137,6 +202,236 @@ example :
     let h (c : Nat) : RxHdr × Nat := ({ ctr := c, exch := 1, initiator := true, ack := none, reliable := true, newOk := true }, 0)
     (runRx ({ uid := 0, ctr := 0, mode := .pase } : Sess) [] [] [h 5, h 5, h 7, h 6, h 6]).2.2 = [6, 7, 5] := by
   decide
+
+/-- the same sequence on an unsecured session is timely, with the same outcome -/
+example :
+    let h (c : Nat) : RxHdr × Nat := ({ ctr := c, exch := 1, initiator := true, ack := none, reliable := true, newOk := true }, 0)
+    let s : Sess := { uid := 0, ctr := 0, mode := .plain }
+    timelyRx s [h 5, h 5, h 7, h 6, h 6] ∧ (runRx s [] [] [h 5, h 5, h 7, h 6, h 6]).2.2 = [6, 7, 5] := by
+  intro h s
+  refine ⟨?_, by decide⟩
+  simp only [timelyRx]
+  decide
+
+/-- **Why the unsecured statement needs the hypothesis**: the unsecured window's restart rule
+(a counter more than 16 behind the newest one is taken for a restarted peer, by specification -
+C04's `PSpec.isRestart`) hands counter 5 to the exchange layer TWICE when its copy arrives after 30
+has been accepted. -/
+theorem unsecured_not_at_most_once :
+    let h (c : Nat) : RxHdr × Nat := ({ ctr := c, exch := 1, initiator := true, ack := none, reliable := true, newOk := true }, 0)
+    (runRx ({ uid := 0, ctr := 0, mode := .plain } : Sess) [] [] [h 5, h 30, h 5]).2.2 = [5, 30, 5] ∧
+    (runRx ({ uid := 0, ctr := 0, mode := .pase } : Sess) [] [] [h 5, h 30, h 5]).2.2 = [30, 5] := by
+  intro h
+  refine ⟨by decide, by decide⟩
+
+/-! ### … with the node's own traffic interleaved (both directions on the exchange)
+
+`runRx` only receives. On a real exchange the node also sends — reliable messages with piggy-backed
+acknowledgements, retransmissions, stand-alone acknowledgements — and drops / opens exchanges, and
+the received messages carry acknowledgements that match, or do not match, what the node is waiting
+for (`ReliableMessage::post_recv` answers `Duplicate` on a mismatch). None of this touches the
+receive window: at-most-once holds for every such history. -/
+
+/-- what happens on one session: a message arrives, or the node itself acts -/
+inductive NOp
+  | rx (h : RxHdr) (now : Nat)
+  | tx (idx : Option Nat) (rel : Bool) (ha sai : Option Nat)
+  | open_ (id : Nat)
+  | close (i : Nat)
+
+def NOp.step (s : Sess) : NOp → Sess
+  | .rx h now => (s.postRecv h now).1
+  | .tx idx rel ha sai => (s.preSend idx rel ha sai).1
+  | .open_ id => match s.addExch id .io with
+    | some (s', _) => s'
+    | none => s
+  | .close i => (s.removeExch i).1
+
+/-- counters handed to the exchange layer (`post_recv = Ok`), newest first -/
+def runN : Sess → List Nat → List NOp → Sess × List Nat
+  | s, del, [] => (s, del)
+  | s, del, op :: rest =>
+    let del' := match op with
+      | .rx h now => (match (s.postRecv h now).2 with
+        | .ok _ => h.ctr :: del
+        | .error _ => del)
+      | _ => del
+    runN (op.step s) del' rest
+
+/-- the received headers of a history, with the session state each of them meets -/
+def timelyN : Sess → List NOp → Prop
+  | _, [] => True
+  | s, op :: rest =>
+    (match op with
+      | .rx h _ => s.mode.enc = true ∨ TwoNode.timelyFor s.rx h.ctr = true
+      | _ => True) ∧ timelyN (op.step s) rest
+
+theorem own_step_keeps_window (s : Sess) (op : NOp) (h : ∀ hd now, op ≠ .rx hd now) :
+    (op.step s).rx = s.rx ∧ (op.step s).mode = s.mode := by
+  have hset : ∀ (t : Sess) i m, (t.setMrp i m).rx = t.rx ∧ (t.setMrp i m).mode = t.mode := by
+    intro t i m; unfold Sess.setMrp; split <;> exact ⟨rfl, rfl⟩
+  cases op with
+  | rx hd now => exact absurd rfl (h hd now)
+  | tx idx rel ha sai =>
+    simp only [NOp.step]
+    unfold Sess.preSend
+    cases idx with
+    | none => exact ⟨rfl, rfl⟩
+    | some i =>
+      simp only
+      split
+      · exact ⟨rfl, rfl⟩
+      · rename_i e he
+        generalize (e.mrp.preSend _ rel ha sai) = P
+        obtain ⟨m, oa, err⟩ := P
+        cases hrc : Option.map (fun x => x.ctr) e.mrp.retrans <;> (
+          cases err with
+          | none => exact ⟨(hset _ _ _).1, (hset _ _ _).2⟩
+          | some er =>
+            cases er <;> simp only <;> first
+              | exact ⟨(hset _ _ _).1, (hset _ _ _).2⟩
+              | (split <;> exact ⟨(hset _ _ _).1, (hset _ _ _).2⟩))
+  | open_ id =>
+    simp only [NOp.step]
+    cases ha : s.addExch id .io with
+    | none => exact ⟨rfl, rfl⟩
+    | some p =>
+      obtain ⟨s', i⟩ := p
+      unfold Sess.addExch at ha
+      simp only at ha
+      split at ha
+      · simp only [Option.some.injEq, Prod.mk.injEq] at ha; obtain ⟨h1, _⟩ := ha; subst h1; exact ⟨rfl, rfl⟩
+      · split at ha
+        · simp only [Option.some.injEq, Prod.mk.injEq] at ha; obtain ⟨h1, _⟩ := ha; subst h1; exact ⟨rfl, rfl⟩
+        · simp at ha
+  | close i =>
+    simp only [NOp.step]
+    unfold Sess.removeExch
+    split
+    · exact ⟨rfl, rfl⟩
+    · split <;> exact ⟨rfl, rfl⟩
+
+theorem runN_facts (ops : List NOp) : ∀ (s : Sess) (acc del : List Nat),
+    timelyN s ops → C04.Inv s.rx acc → acc.Nodup → del.Sublist acc → (runN s del ops).2.Nodup := by
+  induction ops with
+  | nil => intro s acc del _ _ hn hsub; exact List.Nodup.sublist hsub hn
+  | cons op rest ih =>
+    intro s acc del htim hinv hn hsub
+    cases op with
+    | rx h now =>
+      simp only [runN, NOp.step]
+      have hpr := postRecv_rx_mode s h now
+      have hplain : Dedup.postRecv s.rx h.ctr s.mode.enc false = Dedup.postRecvPlain s.rx h.ctr true := by
+        have := TwoNode.window_timely s.rx h.ctr s.mode.enc htim.1
+        simpa [Dedup.postRecv, TwoNode.window] using this
+      have href := C04.step_refines s.rx acc h.ctr hinv
+      rw [← hplain] at href
+      cases hd : (Dedup.postRecv s.rx h.ctr s.mode.enc false).2 with
+      | false =>
+        rw [hd] at href
+        simp only [Bool.false_eq_true, ↓reduceIte] at href
+        cases hr : (s.postRecv h now).2 with
+        | ok b => have := hpr.2.2 b hr; rw [hd] at this; cases this
+        | error e =>
+          simp only
+          exact ih _ acc del htim.2 (by rw [hpr.1]; exact href.2) hn hsub
+      | true =>
+        rw [hd] at href
+        simp only [↓reduceIte] at href
+        have hnot : h.ctr ∉ acc := by
+          intro hin
+          have := href.1
+          rw [C04.spec_false_mem acc h.ctr hin] at this
+          cases this
+        cases hr : (s.postRecv h now).2 with
+        | ok b =>
+          simp only
+          exact ih _ (h.ctr :: acc) (h.ctr :: del) htim.2 (by rw [hpr.1]; exact href.2)
+            (List.nodup_cons.2 ⟨hnot, hn⟩) (List.Sublist.cons_cons _ hsub)
+        | error e =>
+          simp only
+          exact ih _ (h.ctr :: acc) del htim.2 (by rw [hpr.1]; exact href.2)
+            (List.nodup_cons.2 ⟨hnot, hn⟩) (List.Sublist.cons _ hsub)
+    | tx idx rel ha sai =>
+      have hk := own_step_keeps_window s (.tx idx rel ha sai) (fun _ _ h => by cases h)
+      simp only [runN]
+      exact ih _ acc del htim.2 (by rw [hk.1]; exact hinv) hn hsub
+    | open_ id =>
+      have hk := own_step_keeps_window s (.open_ id) (fun _ _ h => by cases h)
+      simp only [runN]
+      exact ih _ acc del htim.2 (by rw [hk.1]; exact hinv) hn hsub
+    | close i =>
+      have hk := own_step_keeps_window s (.close i) (fun _ _ h => by cases h)
+      simp only [runN]
+      exact ih _ acc del htim.2 (by rw [hk.1]; exact hinv) hn hsub
+
+theorem timelyN_secure (ops : List NOp) : ∀ (s : Sess), s.mode.enc = true → timelyN s ops := by
+  induction ops with
+  | nil => intro s _; trivial
+  | cons op rest ih =>
+    intro s henc
+    refine ⟨?_, ih _ ?_⟩
+    · cases op <;> first | exact Or.inl henc | trivial
+    · cases op with
+      | rx h now => simp only [NOp.step]; rw [(postRecv_rx_mode s h now).2.1]; exact henc
+      | tx idx rel ha sai => rw [(own_step_keeps_window s _ (fun _ _ h => by cases h)).2]; exact henc
+      | open_ id => rw [(own_step_keeps_window s _ (fun _ _ h => by cases h)).2]; exact henc
+      | close i => rw [(own_step_keeps_window s _ (fun _ _ h => by cases h)).2]; exact henc
+
+/-- **At most once, with traffic in both directions**: on a fresh secure session, for every history of
+received messages (any acknowledgement fields: matching, stale, none; reliable or not; any exchange)
+interleaved with the node's own sends through any slot (reliable messages with piggy-backed
+acknowledgements, retransmissions, give-ups, stand-alone acknowledgements), exchanges opened and
+dropped: no counter reaches the exchange layer twice. (Unsecured sessions: the same under `timelyN`,
+`runN_facts`.) -/
+theorem at_most_once_with_own_traffic (s : Sess) (ops : List NOp) (henc : s.mode.enc = true)
+    (hfresh : s.rx = Dedup.RxState.unsynced) : (runN s [] ops).2.Nodup :=
+  runN_facts ops s [] [] (timelyN_secure ops s henc) (by rw [hfresh]; exact inv_unsynced) List.nodup_nil
+    (List.Sublist.refl _)
+
+/-- non-vacuity: request received (exchange opened), response sent reliably with the piggy-backed
+acknowledgement, the request's retransmission arrives (rejected), a message with a stale
+acknowledgement arrives (`Duplicate` from the reliability layer: not handed over), the matching
+acknowledgement arrives -/
+example :
+    let h (c : Nat) (a : Option Nat) : RxHdr := { ctr := c, exch := 1, initiator := true, ack := a, reliable := true, newOk := true }
+    (runN ({ uid := 0, ctr := 70, mode := .case } : Sess) []
+      [.rx (h 5 none) 0, .tx (some 0) true none none, .rx (h 5 none) 1, .rx (h 6 (some 69)) 2, .rx (h 7 (some 70)) 3]).2 = [7, 5] := by
+  decide
+
+/-- **Observation (the mismatch rule loses a fresh message).** An exchange waits for the
+acknowledgement of its message `r.ctr`; a message with a NEW counter arrives on it whose
+acknowledgement field names another counter. `ReliableMessage::post_recv` answers `Duplicate`
+("ignore the ACK and not process this message any further, as it is a duplicate" — but the session's
+receive window has just accepted the counter as new): the message is not handed to the application,
+the window remembers its counter — every retransmission of it will be rejected as a duplicate as well —
+and `handle_rx_packet` answers a `Duplicate` of a reliable message with a stand-alone
+acknowledgement, so the peer's call succeeds. The Matter text lets a non-matching acknowledgement be
+ignored and the message be processed. Needs both sides sending on one exchange without waiting for
+each other (a stale acknowledgement on a fresh message); "success ⇒ the peer's STACK received it"
+still holds, "… its application" does not. Documented in `docs/C09.md`, not flagged. -/
+theorem stale_ack_drops_fresh_message (s : Sess) (h : RxHdr) (now i k : Nat) (e : Exch) (r : Retrans)
+    (hw : (Dedup.postRecv s.rx h.ctr s.mode.enc false).2 = true) (hget : s.getExchForRx h = some i)
+    (hs : s.slot i = some e) (hr : e.mrp.retrans = some r) (hack : h.ack = some k) (hk : k ≠ r.ctr) :
+    (s.postRecv h now).2 = .error .duplicate ∧
+    (s.postRecv h now).1.rx = (Dedup.postRecv s.rx h.ctr s.mode.enc false).1 ∧
+    ∀ j, (s.postRecv h now).1.slot j = s.slot j := by
+  have hp := (postRecv_pending e.mrp r h.ctr h.ack h.reliable now hr).2.1 k hack hk
+  refine ⟨?_, (postRecv_rx_mode s h now).1, ?_⟩
+  · unfold Sess.postRecv
+    simp only [hw, Bool.not_true, Bool.false_eq_true, ↓reduceIte]
+    have hget' : ({ s with rx := (Dedup.postRecv s.rx h.ctr s.mode.enc false).1 } : Sess).getExchForRx h = some i := hget
+    have hs' : ({ s with rx := (Dedup.postRecv s.rx h.ctr s.mode.enc false).1 } : Sess).slot i = some e := hs
+    simp only [hget', hs', hp]
+  · have hspec := postRecv_effect s h now
+    unfold RecvSpec at hspec
+    have : (s.postRecv h now).2 = .error .duplicate := by
+      unfold Sess.postRecv
+      simp only [hw, Bool.not_true, Bool.false_eq_true, ↓reduceIte]
+      have hget' : ({ s with rx := (Dedup.postRecv s.rx h.ctr s.mode.enc false).1 } : Sess).getExchForRx h = some i := hget
+      have hs' : ({ s with rx := (Dedup.postRecv s.rx h.ctr s.mode.enc false).1 } : Sess).slot i = some e := hs
+      simp only [hget', hs', hp]
+    exact hspec.2.2 _ this
 
 /-! ## Give-up -/
 
@@ -210,6 +505,194 @@ theorem gives_up_after_budget (m : Mrp) (c : Nat) (hdrAck sai : Option Nat) (hm 
   have hto := preSend_retrans_timeout (retransmitK hdrAck sai budget m0).1 r' hdrAck sai hr' hnot
   simp only [retransmitK, hr']
   exact ⟨by rw [hto.1], hto.2.1, hto.2.2⟩
+
+/-! ### … on every schedule
+
+`gives_up_after_budget` is one history (nothing received between the attempts). The sender loop
+(`Sender::tx`: `wait_tx` = acknowledgement or back-off timer, then `pre_send` again) runs
+interleaved with whatever arrives on the exchange; `runSend` executes ANY such interleaving on the
+reliability state, collecting the result of every (re)transmission attempt. -/
+
+/-- what happens on the sending exchange while its message waits for the acknowledgement -/
+inductive SEv
+  /-- the back-off elapsed: the sender loop calls `pre_send` for the pending message again -/
+  | retx
+  /-- a message arrives on the exchange: `post_recv` -/
+  | recv (rxCtr : Nat) (ack : Option Nat) (rel : Bool) (now : Nat)
+
+def SEv.isRetx : SEv → Bool
+  | .retx => true
+  | _ => false
+
+/-- the event does not acknowledge counter `c` -/
+def SEv.noAckOf (c : Nat) : SEv → Bool
+  | .retx => true
+  | .recv _ a _ _ => a != some c
+
+/-- run a schedule; the results of the retransmission attempts, oldest first (`none` = sent). Once
+nothing is pending `wait_tx` answers `Done` and the loop makes no further attempt. -/
+def runSend (hdrAck sai : Option Nat) : Mrp → List SEv → Mrp × List (Option Err)
+  | m, [] => (m, [])
+  | m, .retx :: evs =>
+    match m.retrans with
+    | none => runSend hdrAck sai m evs
+    | some r =>
+      let res := m.preSend r.ctr true hdrAck sai
+      let rest := runSend hdrAck sai res.1 evs
+      (rest.1, res.2.2 :: rest.2)
+  | m, .recv c a rel now :: evs => runSend hdrAck sai (m.postRecv c a rel now).1 evs
+
+/-- number of times the back-off elapses in the schedule -/
+def numRetx (evs : List SEv) : Nat := (evs.filter SEv.isRetx).length
+
+theorem runSend_idle (hdrAck sai : Option Nat) (evs : List SEv) : ∀ (m : Mrp), m.retrans = none →
+    (runSend hdrAck sai m evs).2 = [] ∧ (runSend hdrAck sai m evs).1.retrans = none := by
+  induction evs with
+  | nil => intro m hm; exact ⟨rfl, hm⟩
+  | cons e evs ih =>
+    intro m hm
+    cases e with
+    | retx => simp only [runSend, hm]; exact ih m hm
+    | recv c a rel now =>
+      simp only [runSend]
+      apply ih
+      cases hx : (m.postRecv c a rel now).1.retrans with
+      | none => rfl
+      | some r' => have := postRecv_mrp_retrans m c a rel now r' hx; rw [hm] at this; cases this
+
+/-- **Give-up after the budget, on every schedule without a matching acknowledgement.** Let a
+message with counter `r.ctr` be pending with `r.count ≤ budget` attempts made. For EVERY schedule of
+back-off expiries and received messages — stale or foreign acknowledgements, duplicates,
+reliable or unreliable messages, in any order and number — none of which acknowledges `r.ctr`:
+exactly the first `budget − r.count` retransmission attempts are sent, the next one (if the schedule
+contains one) answers `TxTimeout` and nothing after it is attempted; until then the message stays
+pending with its counter (no received message ends it), afterwards nothing is pending. -/
+theorem gives_up_on_every_schedule (hdrAck sai : Option Nat) (evs : List SEv) : ∀ (m : Mrp) (r : Retrans),
+    m.retrans = some r → r.count ≤ budget → (∀ e ∈ evs, e.noAckOf r.ctr = true) →
+    (runSend hdrAck sai m evs).2 =
+      List.replicate (min (numRetx evs) (budget - r.count)) none ++
+        (if budget - r.count < numRetx evs then [some .txTimeout] else []) ∧
+    (if budget - r.count < numRetx evs then (runSend hdrAck sai m evs).1.retrans = none
+     else ∃ r', (runSend hdrAck sai m evs).1.retrans = some r' ∧ r'.ctr = r.ctr ∧ r'.count = r.count + numRetx evs) := by
+  induction evs with
+  | nil =>
+    intro m r hr hb _
+    simp only [runSend, numRetx, List.filter_nil, List.length_nil, Nat.zero_min, List.replicate_zero, List.append_nil,
+      Nat.not_lt_zero, ↓reduceIte, Nat.add_zero]
+    exact ⟨by simp, r, hr, rfl, rfl⟩
+  | cons e evs ih =>
+    intro m r hr hb hno
+    have hno' : ∀ e ∈ evs, e.noAckOf r.ctr = true := fun x hx => hno x (List.mem_cons_of_mem _ hx)
+    cases e with
+    | retx =>
+      have hn : numRetx (SEv.retx :: evs) = numRetx evs + 1 := by
+        unfold numRetx
+        rw [List.filter_cons_of_pos (by rfl)]
+        rfl
+      rw [hn]
+      simp only [runSend, hr]
+      by_cases hlt : r.count < Consts.mrpMaxTransmissions
+      · rw [preSend_retrans_ok m r hdrAck sai hr hlt]
+        simp only
+        have := ih { retrans := some { r with count := r.count + 1 }, ack := m.ack.map (fun a => { a with acked := true }),
+                     recvAt := none } { r with count := r.count + 1 } rfl (by unfold budget; simp only; omega) hno'
+        simp only at this
+        obtain ⟨h1, h2⟩ := this
+        have hb1 : budget - r.count = (budget - (r.count + 1)) + 1 := by unfold budget; omega
+        refine ⟨?_, ?_⟩
+        · rw [h1, hb1, Nat.succ_min_succ, List.replicate_succ]
+          simp only [List.cons_append, Nat.add_lt_add_iff_right]
+        · rw [hb1]
+          simp only [Nat.add_lt_add_iff_right]
+          split
+          · rename_i hc; simp only [hc, ↓reduceIte] at h2; exact h2
+          · rename_i hc
+            simp only [hc, ↓reduceIte] at h2
+            obtain ⟨r', hr', hc', hcnt⟩ := h2
+            exact ⟨r', hr', hc', by rw [hcnt]; omega⟩
+      · have hz : budget - r.count = 0 := by unfold budget at hb ⊢; omega
+        obtain ⟨hto, hnone, _⟩ := preSend_retrans_timeout m r hdrAck sai hr hlt
+        have hidle := runSend_idle hdrAck sai evs _ hnone
+        rw [hz]
+        simp only [Nat.min_zero, List.replicate_zero, List.nil_append, Nat.zero_lt_succ, ↓reduceIte]
+        exact ⟨by rw [hto, hidle.1], hidle.2⟩
+    | recv c a rel now =>
+      have hn : numRetx (SEv.recv c a rel now :: evs) = numRetx evs := by
+        unfold numRetx
+        rw [List.filter_cons_of_neg (by simp [SEv.isRetx])]
+      rw [hn]
+      simp only [runSend]
+      have hp := postRecv_pending m r c a rel now hr
+      simp only at hp
+      have ha : a ≠ some r.ctr := by
+        have := hno _ (List.mem_cons_self ..)
+        simpa [SEv.noAckOf] using this
+      have hstill : (m.postRecv c a rel now).1.retrans = some r := by
+        cases a with
+        | none => exact (hp.2.2 rfl).2.1
+        | some av =>
+          have : av ≠ r.ctr := fun h => ha (by rw [h])
+          rw [hp.2.1 av rfl this]
+          exact hr
+      exact ih _ r hstill hb hno'
+
+/-- **From the first transmission: at most `1 + budget` transmissions, then `TxTimeout`** — for every
+schedule that contains more than `budget` back-off expiries and no acknowledgement of the message. -/
+theorem gives_up_after_budget_on_every_schedule (m : Mrp) (c : Nat) (hdrAck sai : Option Nat) (evs : List SEv)
+    (hm : m.retrans = none) (hno : ∀ e ∈ evs, e.noAckOf c = true) (hmany : budget < numRetx evs) :
+    (m.preSend c true hdrAck sai).2.2 = none ∧
+    (runSend hdrAck sai (m.preSend c true hdrAck sai).1 evs).2 = List.replicate budget none ++ [some .txTimeout] ∧
+    (runSend hdrAck sai (m.preSend c true hdrAck sai).1 evs).1.retrans = none := by
+  have h0 : (m.preSend c true hdrAck sai).1.retrans = some (Retrans.new sai c) := by
+    unfold Mrp.preSend; simp [hm]
+  have hok : (m.preSend c true hdrAck sai).2.2 = none := by
+    unfold Mrp.preSend; simp [hm]
+  have := gives_up_on_every_schedule hdrAck sai evs _ (Retrans.new sai c) h0 (by simp [Retrans.new]) hno
+  have hz : budget - (Retrans.new sai c).count = budget := by simp [Retrans.new]
+  rw [hz] at this
+  simp only [hmany, ↓reduceIte] at this
+  refine ⟨hok, ?_, this.2⟩
+  rw [this.1, Nat.min_eq_right (Nat.le_of_lt hmany)]
+
+/-- **The pending message ends only by the matching acknowledgement or by `TxTimeout`** — every
+schedule: if nothing in it acknowledges the counter and the message is no longer pending at its end,
+one of the attempts answered `TxTimeout` (the call reported failure, not success). -/
+theorem stops_only_by_ack_or_timeout (hdrAck sai : Option Nat) (evs : List SEv) (m : Mrp) (r : Retrans)
+    (hr : m.retrans = some r) (hb : r.count ≤ budget) (hno : ∀ e ∈ evs, e.noAckOf r.ctr = true)
+    (hstop : (runSend hdrAck sai m evs).1.retrans = none) : some Err.txTimeout ∈ (runSend hdrAck sai m evs).2 := by
+  obtain ⟨h1, h2⟩ := gives_up_on_every_schedule hdrAck sai evs m r hr hb hno
+  by_cases hc : budget - r.count < numRetx evs
+  · rw [h1]; simp [hc]
+  · simp only [hc, ↓reduceIte] at h2
+    obtain ⟨r', hr', _⟩ := h2
+    rw [hstop] at hr'
+    cases hr'
+
+/-- **One acknowledgement suffices, at any moment before the give-up** — after every schedule
+without a matching acknowledgement that has not used up the budget, a message acknowledging the
+counter ends the retransmission and is itself processed (no error): `wait_tx` answers `Done`. -/
+theorem one_ack_suffices_on_every_schedule (hdrAck sai : Option Nat) (evs : List SEv) (m : Mrp) (r : Retrans)
+    (hr : m.retrans = some r) (hb : r.count ≤ budget) (hno : ∀ e ∈ evs, e.noAckOf r.ctr = true)
+    (hfew : numRetx evs ≤ budget - r.count) (rxCtr : Nat) (rel : Bool) (now : Nat) :
+    ((runSend hdrAck sai m evs).1.postRecv rxCtr (some r.ctr) rel now).2 = none ∧
+    ((runSend hdrAck sai m evs).1.postRecv rxCtr (some r.ctr) rel now).1.retrans = none := by
+  obtain ⟨_, h2⟩ := gives_up_on_every_schedule hdrAck sai evs m r hr hb hno
+  have hc : ¬ budget - r.count < numRetx evs := by omega
+  simp only [hc, ↓reduceIte] at h2
+  obtain ⟨r', hr', hc', _⟩ := h2
+  have := postRecv_pending _ r' rxCtr (some r.ctr) rel now hr'
+  simp only at this
+  exact this.1 (by rw [hc'])
+
+/-- non-vacuity: stale acknowledgements, a duplicate and an unreliable message between seven back-off
+expiries: five retransmissions are sent, the sixth attempt is `TxTimeout`, the seventh is not made -/
+example :
+    let m0 : Mrp := (({} : Mrp).preSend 9 true none none).1
+    let evs : List SEv := [.retx, .recv 4 (some 8) true 0, .retx, .retx, .recv 5 none false 0, .retx, .recv 4 (some 8) true 0,
+      .retx, .retx, .retx]
+    (∀ e ∈ evs, e.noAckOf 9 = true) ∧ (runSend none none m0 evs).2 = List.replicate 5 none ++ [some .txTimeout] := by
+  intro m0 evs
+  refine ⟨by decide, by decide⟩
 
 /-- the give-up is an error of `Session::pre_send` (never `Ok`), and the error is `TxTimeout` -/
 theorem giveup_is_timeout_not_success (s : Sess) (i : Nat) (e : Exch) (r : Retrans) (ha sai : Option Nat)
@@ -373,6 +856,84 @@ theorem backoff_actual_ge_spec (base n j : Nat) (hn : n ≤ 5) (hb : 200 ≤ bas
       Consts.mrpJitterDen, scaleLoop] <;>
     simp <;> omega
 
+/-! ### The Matter specification's back-off, written independently of the code
+
+Matter Core Specification, Message Reliability Protocol, retransmission timing:
+`mrpBackoffTime = i · MRP_BACKOFF_BASE^max(0, n − MRP_BACKOFF_THRESHOLD) · (1.0 + random(0,1) · MRP_BACKOFF_JITTER)`
+with `i = base interval · MRP_BACKOFF_MARGIN`, `MRP_BACKOFF_MARGIN = 1.1`, `MRP_BACKOFF_BASE = 1.6`,
+`MRP_BACKOFF_JITTER = 0.25`, `MRP_BACKOFF_THRESHOLD = 1`, `n` = number of send attempts so far.
+`specBackoff` is this formula over the rationals with the specification's literal constants; the
+code's constants (re-extracted from `mrp.rs` on every run) are proved to be these
+(`code_constants_are_the_spec_constants`), the code's integer ladder is proved to lie inside the
+specification's range `[rand = 0, rand = 1]` for the parameter range in use
+(`backoff_within_spec_range`). `backoff_lower_bound` / `backoff_actual_ge_spec` above remain as the
+refinement part (what the integer arithmetic loses against the real-valued ladder). -/
+
+/-- the specification's formula (ms), `rand ∈ [0, 1]`; `n - 1` on `Nat` is `max(0, n − 1)` -/
+def specBackoff (baseMs n : Nat) (rand : Rat) : Rat :=
+  ((baseMs : Rat) * (11 / 10)) * (16 / 10) ^ (n - 1) * (1 + rand * (25 / 100))
+
+/-- the constants of `mrp.rs` are the specification's: margin 1.1, base 1.6, jitter 0.25, threshold 1;
+the jitter byte is scaled by 255 -/
+theorem code_constants_are_the_spec_constants :
+    Consts.mrpMarginNum * 10 = 11 * Consts.mrpMarginDen ∧ Consts.mrpBackoffBaseNum * 10 = 16 * Consts.mrpBackoffBaseDen ∧
+    Consts.mrpJitterNum * 100 = 25 * Consts.mrpJitterDen ∧ Consts.mrpBackoffThreshold = 1 ∧ Consts.mrpJitterDiv = 255 := by
+  decide
+
+/-- the integer ladder never exceeds the real-valued one with the largest jitter — every base, every jitter byte -/
+theorem backoff_le_spec_max_nat (base n j : Nat) (hn : n ≤ 5) (hj : j ≤ 255) :
+    backoffMs base n j * (10 ^ (n - 1 + 1) * 4) ≤ base * 11 * 16 ^ (n - 1) * 5 := by
+  have hmono := backoff_monotone_jitter base n j 255 hj
+  suffices h : backoffMs base n 255 * (10 ^ (n - 1 + 1) * 4) ≤ base * 11 * 16 ^ (n - 1) * 5 from
+    Nat.le_trans (Nat.mul_le_mul_right _ hmono) h
+  have hcases : n = 0 ∨ n = 1 ∨ n = 2 ∨ n = 3 ∨ n = 4 ∨ n = 5 := by omega
+  rcases hcases with h | h | h | h | h | h <;> subst h <;>
+    simp only [backoffMs, backoffBase, Consts.mrpBackoffThreshold, Consts.mrpMarginNum, Consts.mrpMarginDen,
+      Consts.mrpBackoffBaseNum, Consts.mrpBackoffBaseDen, Consts.mrpJitterNum,
+      Consts.mrpJitterDen, scaleLoop] <;>
+    simp <;> omega
+
+theorem spec_lo (b x k : Nat) (hk : k ≤ 4) (h : b * 11 * 16 ^ k ≤ x * 10 ^ (k + 1)) :
+    ((b : Rat) * (11 / 10)) * (16 / 10) ^ k * (1 + 0 * (25 / 100)) ≤ (x : Rat) := by
+  have h' : ((b * 11 * 16 ^ k : Nat) : Rat) ≤ ((x * 10 ^ (k + 1) : Nat) : Rat) := by exact_mod_cast h
+  have hc : k = 0 ∨ k = 1 ∨ k = 2 ∨ k = 3 ∨ k = 4 := by omega
+  rcases hc with rfl | rfl | rfl | rfl | rfl <;> (push_cast at h'; grind)
+
+theorem spec_hi (b x k : Nat) (hk : k ≤ 4) (h : x * (10 ^ (k + 1) * 4) ≤ b * 11 * 16 ^ k * 5) :
+    (x : Rat) ≤ ((b : Rat) * (11 / 10)) * (16 / 10) ^ k * (1 + 1 * (25 / 100)) := by
+  have h' : ((x * (10 ^ (k + 1) * 4) : Nat) : Rat) ≤ ((b * 11 * 16 ^ k * 5 : Nat) : Rat) := by exact_mod_cast h
+  have hc : k = 0 ∨ k = 1 ∨ k = 2 ∨ k = 3 ∨ k = 4 := by omega
+  rcases hc with rfl | rfl | rfl | rfl | rfl <;> (push_cast at h'; grind)
+
+/-- **The code's back-off lies in the specification's range.** For the parameter range in use — base
+interval at least 200 ms (the default `MRP_BASE_RETRY_INTERVAL_MS` is 300 ms; the peer-advertised
+session active interval replaces it), attempts `n ≤ 5 = MRP_MAX_TRANSMISSIONS`, jitter byte between
+the one the sender loop uses (`Consts.mrpJitterFixed = 100`) and 255 — the delay the code waits before
+retransmission `n + 1` is at least the specification's `mrpBackoffTime` with `random = 0` (never
+earlier than the protocol's back-off) and at most the one with `random = 1`. -/
+theorem backoff_within_spec_range (base n j : Nat) (hn : n ≤ 5) (hb : 200 ≤ base) (hj : Consts.mrpJitterFixed ≤ j)
+    (hj2 : j ≤ 255) :
+    specBackoff base n 0 ≤ (backoffMs base n j : Rat) ∧ (backoffMs base n j : Rat) ≤ specBackoff base n 1 := by
+  have hlo := backoff_actual_ge_spec base n j hn hb hj
+  have hhi := backoff_le_spec_max_nat base n j hn hj2
+  unfold specBackoff
+  exact ⟨spec_lo base _ (n - 1) (by omega) hlo, spec_hi base _ (n - 1) (by omega) hhi⟩
+
+/-- the upper half needs no restriction on base and jitter (rounding only shortens the ladder) -/
+theorem backoff_le_spec_max (base n j : Nat) (hn : n ≤ 5) (hj : j ≤ 255) :
+    (backoffMs base n j : Rat) ≤ specBackoff base n 1 := by
+  unfold specBackoff
+  exact spec_hi base _ (n - 1) (by omega) (backoff_le_spec_max_nat base n j hn hj)
+
+/-- the specification's values for the default interval (random = 0): 330, 330, 528, 844.8, 1351.68,
+2162.688 ms, and 2703.36 ms for the last step with random = 1; the code waits 362, 362, 579, 926,
+1482, 2371 ms (next example): inside the range -/
+example : specBackoff 300 0 0 = 330 ∧ specBackoff 300 1 0 = 330 ∧ specBackoff 300 2 0 = 528 ∧
+    specBackoff 300 3 0 = 4224 / 5 ∧ specBackoff 300 4 0 = 33792 / 25 ∧ specBackoff 300 5 0 = 270336 / 125 ∧
+    specBackoff 300 5 1 = 337920 / 125 := by
+  simp only [specBackoff]
+  grind
+
 /-- the default ladder: 362, 362, 579, 926, 1482, 2371 ms (base 300, the code's jitter byte) -/
 example : (List.range 6).map (fun n => backoffMs 300 n Consts.mrpJitterFixed) = [362, 362, 579, 926, 1482, 2371] := by
   decide
@@ -521,8 +1082,10 @@ theorem late_copy_is_restart (rx : Dedup.RxState) (p : Dedup.PSpec) (c : Nat) (h
 open TwoNode in
 /-- **Success only if the peer's stack accepted the message** — for EVERY schedule, both session
 kinds, any number of messages, restarts of an unsecured window included: a send call that returned
-success was handed to the receiving application; and while no late copy was delivered, its counter is
-among those the receiver's window (= C04's set-based specification) accepted. -/
+success was handed to the receiving application (`i ∈ s.app`: this is the content). The second
+conjunct (while no late copy was delivered, the counter is in SOME list `acc` that C04's invariant
+relates to the receiver's window) is weak on its own — `C04.Inv` pins `acc` down only around the
+window — and is kept as the bridge to C04's specification. -/
 theorem twoNode_success_only_if_accepted (a0 b0 : Nat) (enc : Bool) (sai : Option Nat) (evs : List Ev) (s : Sys)
     (h : run (init a0 b0 enc sai) evs = some s) (i : Nat) (hok : (i, true) ∈ s.res) :
     i ∈ s.app ∧ (s.late = false → ∃ acc, C04.Inv s.bRx acc ∧ a0 + i ∈ acc) := by
@@ -685,6 +1248,56 @@ theorem twoNode_one_tx_one_ack_suffice (a0 b0 : Nat) (sai : Option Nat) (evs : L
       exact List.mem_cons_self
 
 open TwoNode in
+/-- **The sender is never stuck, and gives up exactly at the budget** — in every reachable state with
+a call in progress, exactly one of the sender's own moves is enabled: below the budget
+(`count < MRP_MAX_TRANSMISSIONS`) the retransmission and NOT the give-up; at the budget the give-up
+and NOT another retransmission, and the give-up ends the call with failure (`TxTimeout`), never
+with success. (Every schedule, both session kinds.) -/
+theorem twoNode_retx_xor_giveup (a0 b0 : Nat) (enc : Bool) (sai : Option Nat) (evs : List Ev) (s : Sys)
+    (h : run (init a0 b0 enc sai) evs = some s) (i : Nat) (hcur : s.cur = some i) :
+    ∃ r, s.aMrp.retrans = some r ∧ r.ctr = a0 + i ∧
+      ((r.count < budget ∧ (step s .retx).isSome = true ∧ step s .giveup = none) ∨
+       (r.count = budget ∧ step s .retx = none ∧
+          ∃ s', step s .giveup = some s' ∧ s'.cur = none ∧ s'.res = (i, false) :: s.res ∧ s'.aMrp.retrans = none)) := by
+  obtain ⟨_, _, g⟩ := good_run evs (good_init a0 b0 enc sai) h
+  obtain ⟨_, r, hr, hctr, hcnt⟩ := g.curSome i hcur
+  refine ⟨r, hr, hctr, ?_⟩
+  by_cases hb : r.count < Consts.mrpMaxTransmissions
+  · left
+    have hp := preSend_retrans_ok s.aMrp r none s.sai hr hb
+    refine ⟨hb, ?_, ?_⟩ <;> simp [step, Sys.resendStep, hcur, hr, hp]
+  · right
+    have hp := preSend_retrans_timeout s.aMrp r none s.sai hr hb
+    refine ⟨by unfold budget; omega, ?_, ?_⟩
+    · simp [step, Sys.resendStep, hcur, hr, hp.1]
+    · refine ⟨{ s with aMrp := (s.aMrp.preSend r.ctr true none s.sai).1, cur := none, res := (i, false) :: s.res }, ?_, rfl, rfl, hp.2.1⟩
+      simp [step, Sys.resendStep, hcur, hr, hp.1]
+
+/-- `sendStep` WITHOUT "the application stops at the first failed call": a new message although an
+earlier call on this exchange failed -/
+def sendAfterFailure (s : TwoNode.Sys) : Option TwoNode.Sys :=
+  if s.cur.isSome || s.aMrp.retrans.isSome then none else
+  let r := s.aMrp.preSend s.aCtr true none s.sai
+  match r.2.2 with
+  | some _ => none
+  | none =>
+    some { s with aCtr := s.aCtr + 1, aMrp := r.1, cur := some s.next, next := s.next + 1,
+                  net := TwoNode.Dg.data s.aCtr s.next :: s.net }
+
+/-- **The restriction "nothing is sent on the exchange after a failed call" is needed** (it is the
+Matter rule: an exchange on which reliable delivery failed is closed; rs-matter reports `TxTimeout`
+and, on a CASE session, expires the session, but its `Exchange` API does not itself refuse a further
+`send`). On a SECURE session: message 0 is given up after six transmissions all of which are merely
+delayed; the application sends message 1 on the same exchange; message 1 arrives, then a delayed
+copy of message 0 — a first-time counter inside the receive window — is accepted and shown to the
+receiving application AFTER message 1: not in sending order, and message 0 was reported as failed. -/
+theorem order_breaks_if_sender_continues_after_giveup :
+    ∃ s1 s2 s3, TwoNode.run (TwoNode.init 100 500 true) [.send, .retx, .retx, .retx, .retx, .retx, .giveup] = some s1 ∧
+      s1.res = [(0, false)] ∧ TwoNode.step s1 .send = none ∧ sendAfterFailure s1 = some s2 ∧
+      TwoNode.run s2 [.deliver (.data 101 1), .deliver (.data 100 0)] = some s3 ∧ s3.app = [0, 1] ∧ s3.late = false := by
+  refine ⟨_, _, _, rfl, ?_, ?_, rfl, rfl, ?_, ?_⟩ <;> decide
+
+open TwoNode in
 /-- **Soundness of the trace monitor**: a log of observed events the driver accepts
 (`acceptsTrace`) is the trace of a schedule of the model, so everything proved above about every
 schedule holds for the run that produced it — in particular every call it reports as successful
@@ -697,6 +1310,109 @@ theorem accepted_trace_is_a_run (a0 b0 : Nat) (enc : Bool) (sai : Option Nat) (o
   obtain ⟨evs, hrun⟩ := acceptsTrace_run _ _ _ h
   exact ⟨⟨evs, hrun⟩, twoNode_in_order_at_most_once a0 b0 enc sai evs s hrun,
     fun i hi => (twoNode_success_only_if_accepted a0 b0 enc sai evs s hrun i hi).1⟩
+
+/-- non-vacuity of the monitor: a good trace (first transmission lost, retransmission after the
+back-off, delivery, acknowledgement, success) is accepted … -/
+example : (match TwoNode.acceptsTrace (TwoNode.init 100 500)
+      [.txA 0 100 0 .lost, .txA 362 100 0 .pass, .rxB 100 0, .appB 0, .txB 500 100 .pass, .rxA 500 100, .endA 0 true] with
+    | .ok s => some (s.app, s.res, s.late)
+    | .error _ => none) = some ([0], [(0, true)], false) := by decide
+
+/-- … a give-up after the budget (six transmissions at the code's own back-off, all lost) is accepted … -/
+example : (match TwoNode.acceptsTrace (TwoNode.init 100 500)
+      [.txA 0 100 0 .lost, .txA 362 100 0 .lost, .txA 724 100 0 .lost, .txA 1303 100 0 .lost, .txA 2229 100 0 .lost,
+       .txA 3711 100 0 .lost, .endA 0 false] with
+    | .ok s => some (s.app, s.res)
+    | .error _ => none) = some ([], [(0, false)]) := by decide
+
+/-- … and it rejects: a retransmission earlier than the back-off, a success without an acknowledgement,
+a failure before the budget is used up -/
+example :
+    (TwoNode.acceptsTrace (TwoNode.init 100 500) [.txA 0 100 0 .lost, .txA 100 100 0 .pass]).toOption.isNone = true ∧
+    (TwoNode.acceptsTrace (TwoNode.init 100 500)
+      [.txA 0 100 0 .pass, .rxB 100 0, .appB 0, .txB 500 100 .lost, .endA 0 true]).toOption.isNone = true ∧
+    (TwoNode.acceptsTrace (TwoNode.init 100 500) [.txA 0 100 0 .lost, .txA 362 100 0 .lost, .endA 0 false]).toOption.isNone = true := by
+  refine ⟨by decide, by decide, by decide⟩
+
+/-- a schedule with a give-up in the two-node model: six transmissions, all dropped, then `giveup` -/
+example :
+    (TwoNode.run (TwoNode.init 100 500)
+      [.send, .drop (.data 100 0), .retx, .drop (.data 100 0), .retx, .drop (.data 100 0), .retx, .drop (.data 100 0),
+       .retx, .drop (.data 100 0), .retx, .drop (.data 100 0), .giveup]).map (fun s => (s.app, s.res, s.cur, s.net)) =
+    some ([], [(0, false)], none, []) := by
+  decide
+
+/-! ## Two nodes, both directions, piggy-backed acknowledgements: every schedule
+
+`Model/TwoNodeBi.lean`: both nodes send reliable application messages on ONE exchange of a secure
+session (stop-and-wait each, nothing after a failed call), their headers carry the acknowledgement
+`ReliableMessage::pre_send` piggy-backs, both retransmit / give up / acknowledge, both receive through
+window + `ReliableMessage::post_recv` (matching acknowledgement ends the pending call, a mismatching
+one ⇒ `Duplicate`), duplicates are acknowledged afresh outside the exchange; the adversary drops,
+duplicates, delays, reorders. `TwoNodeBi.both_run`: the invariant of both directions holds after
+every schedule. -/
+
+open TwoNodeBi in
+/-- **In sending order, at most once — both directions at once, piggy-backed acknowledgements,
+every schedule** (secure session): whatever both applications send and whenever, and whatever the
+network does, the log of EACH receiving application (newest first) is strictly decreasing. -/
+theorem biNode_in_order_at_most_once (a0 b0 : Nat) (sai : Option Nat) (evs : List Ev) (s : Sys)
+    (h : run (init a0 b0 sai) evs = some s) (y : Bool) : (s.n y).app.Pairwise (· > ·) := by
+  obtain ⟨acc, g⟩ := both_run evs (both_init a0 b0 sai) h (!y)
+  have := g.sorted
+  simpa using this
+
+open TwoNodeBi in
+/-- **Success only if the message is settled at the peer's stack** — both directions, every schedule:
+a send call that returned success sent its message under a counter the peer's receive window has
+accepted or will never accept any more (`specAccept acc c = false` for the set `acc` of counters that
+window, C04's specification, has accepted). With traffic in both directions this is all that can be
+said: `biNode_success_without_application`. -/
+theorem biNode_success_only_if_settled (a0 b0 : Nat) (sai : Option Nat) (evs : List Ev) (s : Sys)
+    (h : run (init a0 b0 sai) evs = some s) (x : Bool) (j : Nat) (hok : (j, true) ∈ (s.n x).res) :
+    ∃ c acc, (s.n x).msgs[j]? = some c ∧ C04.Inv (s.n (!x)).rx acc ∧ Dedup.specAccept acc c = false := by
+  obtain ⟨acc, g⟩ := both_run evs (both_init a0 b0 sai) h x
+  obtain ⟨c, hc, hs⟩ := g.resOk j hok
+  exact ⟨c, acc, hc, g.win, hs⟩
+
+open TwoNodeBi in
+/-- acknowledgements on the wire — stand-alone or piggy-backed on a reliable message — name only
+counters that are settled at the node that sends them -/
+theorem biNode_acks_only_for_settled (a0 b0 : Nat) (sai : Option Nat) (evs : List Ev) (s : Sys)
+    (h : run (init a0 b0 sai) evs = some s) (d : Dg) (hd : d ∈ s.net) (k : Nat) (hk : d.ack = some k) :
+    ∃ acc, C04.Inv (s.n d.frm).rx acc ∧ Dedup.specAccept acc k = false := by
+  obtain ⟨acc, g⟩ := both_run evs (both_init a0 b0 sai) h (!d.frm)
+  have hw := g.win
+  simp only [Bool.not_not] at hw
+  exact ⟨acc, hw, g.netAck d hd (by simp) k hk⟩
+
+/-- non-vacuity: a request / response / next-request round with a lost and a duplicated request, a lost
+response and its retransmission; the response's header acknowledges the request, the next request
+acknowledges the response -/
+example :
+    let r := TwoNodeBi.run (TwoNodeBi.init 100 500)
+      [.send true, .drop ⟨true, 100, some 0, none⟩, .retx true, .dup ⟨true, 100, some 0, none⟩,
+       .deliver ⟨true, 100, some 0, none⟩, .send false, .deliver ⟨true, 100, some 0, none⟩,
+       .drop ⟨false, 500, some 0, some 100⟩, .deliver ⟨false, 501, none, some 100⟩, .retx false,
+       .deliver ⟨false, 500, some 0, some 100⟩, .send true, .deliver ⟨true, 101, some 1, some 500⟩]
+    r.map (fun s => ((s.n true).app, (s.n true).res)) = some ([0], [(0, true)]) ∧
+    r.map (fun s => ((s.n false).app, (s.n false).res)) = some ([1, 0], [(0, true)]) ∧
+    r.map (fun s => s.net) = some [] := by
+  intro r
+  refine ⟨by decide, by decide, by decide⟩
+
+/-- **With both sides sending, "success" does not mean "the application has it"** (the observation
+`stale_ack_drops_fresh_message`, end to end): A's request 0 is delivered and acknowledged; then both
+applications send at the same time. B's message still acknowledges A's OLD counter 100 while A waits
+for the acknowledgement of 101: A's `ReliableMessage::post_recv` answers `Duplicate`, the message is
+not handed to A's application, `handle_rx_packet` acknowledges it, B's call returns success — and A's
+log is empty for good (a retransmission would be a window duplicate). -/
+theorem biNode_success_without_application :
+    (TwoNodeBi.run (TwoNodeBi.init 100 500)
+      [.send true, .deliver ⟨true, 100, some 0, none⟩, .ackApp false, .deliver ⟨false, 500, none, some 100⟩,
+       .send true, .send false, .deliver ⟨false, 501, some 0, some 100⟩, .deliver ⟨true, 102, none, some 501⟩]).map
+      (fun s => ((s.n false).res, (s.n true).app)) = some ([(0, true)], []) := by
+  decide
 
 /-- The receive window of an unsecured session (`enc = false`, the other half of the harness's
 system-level flows) differs from the secure one only for counters more than the window width behind
